@@ -80,6 +80,8 @@ class G:
                 d["held"] = 1
         if kind == "ping" and self.cls == "life" and r.random() < 0.5:
             d["life"] = 1
+        if self.cls in ("reuse", "mix", "idle", "post") and r.random() < 0.25:
+            d["ondrop"] = 1      # its Drop re-enters the loop through a handle (C08)
         return d
 
     # ------------------------------------------------------------- programs
